@@ -106,8 +106,52 @@ fn op_request(o: &OpRecord) -> Option<String> {
     })
 }
 
+/// Direct oracle for a defect the refinement proof exposed (`proposed_fixes/cpm-user-prefix.diff`): `split_user_filename`
+/// parses the user prefix with `u8::from_str` ("01:", "+1:" mean user 1) while `get_file` compares the spelled string with
+/// the keys "1:NAME.TYP" — so a `put` or `rename` under an alias spelling of an existing name is accepted and two files
+/// end up under one name (C05: no duplicate names; C03: the independent reader then finds duplicate extent numbers).
+/// Runs once per harness run on a fresh Apple CP/M volume; independent of the history being checked.
+fn prefix_alias_probe(vd: &mut Verdicts) {
+    use a2kit::fs::DiskFS;
+    static DONE: std::sync::atomic::AtomicBool = std::sync::atomic::AtomicBool::new(false);
+    if vd.focus != Focus::C05 && vd.focus != Focus::C03 { return; }
+    if DONE.swap(true, std::sync::atomic::Ordering::SeqCst) { return; }
+    let res = guarded(|| -> Result<Option<String>, String> {
+        let img = a2kit::img::dsk_do::DO::create(35, 16);
+        let dpb = a2kit::bios::dpb::DiskParameterBlock::create(&a2kit::img::names::A2_DOS33_KIND);
+        let mut disk = a2kit::fs::cpm::Disk::from_img(Box::new(img), dpb, [2, 2, 3]).map_err(|e| e.to_string())?;
+        disk.format("", None).map_err(|e| e.to_string())?;
+        let mut f1 = disk.new_fimg(None, false, "1:B.TXT").map_err(|e| e.to_string())?;
+        f1.desequence(b"first");
+        disk.put(&f1).map_err(|e| e.to_string())?;
+        for alias in ["01:B.TXT", "+1:B.TXT", "1:B.TXT:X"] {
+            if let Ok(mut f2) = disk.new_fimg(None, false, alias) {
+                f2.desequence(b"second");
+                if disk.put(&f2).is_ok() { return Ok(Some(format!("put {} accepted although 1:B.TXT exists", alias))); }
+            }
+        }
+        let mut f3 = disk.new_fimg(None, false, "C.TXT").map_err(|e| e.to_string())?;
+        f3.desequence(b"third");
+        disk.put(&f3).map_err(|e| e.to_string())?;
+        for alias in ["01:B.TXT", "+1:B.TXT"] {
+            if disk.rename("C.TXT", alias).is_ok() { return Ok(Some(format!("rename C.TXT -> {} accepted although 1:B.TXT exists", alias))); }
+        }
+        Ok(None)
+    });
+    let hist: Vec<String> = vec!["fresh cpm2/do volume: put 1:B.TXT".to_string()];
+    for f in [Focus::C05, Focus::C03] {
+        match &res {
+            Ok(Ok(None)) => vd.v(f, true, "user-prefix-alias-refused", "", &[]),
+            Ok(Ok(Some(what))) => vd.v(f, false, "user-prefix-alias-refused", what, &hist),
+            Ok(Err(e)) => vd.v(f, false, "user-prefix-alias-refused", &format!("probe could not run: {}", e), &hist),
+            Err(p) => vd.v(f, false, "user-prefix-alias-refused", &format!("probe panicked: {}", p), &hist),
+        }
+    }
+}
+
 pub fn after_step(drv: &mut Drv, w: &mut World, vd: &mut Verdicts, desc: &str) {
     if std::env::var("A2V_NO_FSCPM").is_ok() { return; }
+    prefix_alias_probe(vd);
     let op = w.last_op.clone();
     // first call of this history: the model formats its own blank image
     if drv.ask("fsc state") == "empty" {
